@@ -70,6 +70,34 @@ class SymStr:
         r = self.__eq__(o)
         return r if r is NotImplemented else Not(r)
 
+    def _lex(self, o, strict_less):
+        if isinstance(o, str):
+            o = SymStr([ord(c) for c in o])
+        if not isinstance(o, SymStr):
+            return NotImplemented
+        for a, b in zip(self.items, o.items):
+            a = z3.BitVecVal(a, 8) if isinstance(a, int) else a
+            b = z3.BitVecVal(b, 8) if isinstance(b, int) else b
+            if eng().branch(z3.ULT(a, b)):
+                return True
+            if eng().branch(z3.UGT(a, b)):
+                return False
+        return (len(self.items) < len(o.items)) if strict_less else (len(self.items) <= len(o.items))
+
+    def __lt__(self, o):
+        return self._lex(o, True)
+
+    def __le__(self, o):
+        return self._lex(o, False)
+
+    def __gt__(self, o):
+        r = self._lex(o, False)
+        return r if r is NotImplemented else not r
+
+    def __ge__(self, o):
+        r = self._lex(o, True)
+        return r if r is NotImplemented else not r
+
     def __hash__(self):
         raise Unsupported('hash of a symbolic string')
 
